@@ -7,6 +7,7 @@ reuse, across restarts — to every procedure and argument position and compares
 -/
 import GoNfsd.Lemmas.FsStep
 import GoNfsd.Lemmas.Fh
+import GoNfsd.Lemmas.Reveal
 
 namespace GoNfsd.Props.C08
 open GoNfsd.Model.Fs
@@ -148,5 +149,30 @@ theorem created_handle_fresh (s : FS) (c : Choice) (dfh name : Bytes) (kind : Na
     the root handle is not. -/
 example : Dead (mkfs true 100000) (mkFh 5 0) := by decide
 example : resolve (mkfs true 100000) (mkFh 1 1) = some 1 := by decide
+
+/-! ### a handle another client was given survives a crash (model M11) -/
+
+/-- Keys: the entries of a directory; values: the handles they map to.  Under the discipline of
+    `fstxn.commitWait` (locks are given back only after the flush; validated on every recorded
+    transaction by the `locks` driver's `earlyReveal`), in every state reachable by any
+    interleaving, the handle a LOOKUP or READDIRPLUS finds under the directory's lock is the one
+    the recovered server has for that name after a crash at that moment: no client is ever given a
+    handle for an object a crash un-creates (whose number and generation the next creation would
+    then hand out again).  Directories are never written by unstable WRITEs. -/
+theorem a_handle_given_to_another_client_survives_a_crash
+    (ops : List GoNfsd.Model.Reveal.Op) (s : GoNfsd.Model.Reveal.St) (t entry : Nat)
+    (hd : GoNfsd.Model.Reveal.Disciplined GoNfsd.Model.Reveal.empty ops)
+    (hr : GoNfsd.Model.Reveal.run GoNfsd.Model.Reveal.empty ops = some s)
+    (hl : s.lock entry = some t) (hp : ∀ c ∈ s.pend, c.1 ≠ t)
+    (hu : ∀ c ∈ s.pend, c.2.1 = true → ∀ kv ∈ c.2.2, kv.1 ≠ entry) :
+    s.read entry = s.recovered entry :=
+  GoNfsd.Model.Reveal.read_is_recovered s t entry
+    (GoNfsd.Model.Reveal.run_inv ops _ s GoNfsd.Model.Reveal.empty_inv hd hr) hl hp hu
+
+/-- the seeded change C08k (CREATE commits without waiting and gives the directory back): the
+    other client's LOOKUP finds handle 77 under name 5; the recovered server has no such name -/
+example : ∃ s, GoNfsd.Model.Reveal.run GoNfsd.Model.Reveal.empty
+      [.acquire 1 5, .commit 1 [(5, 77)] false false, .release 1 5, .acquire 2 5] = some s ∧
+    s.lock 5 = some 2 ∧ s.read 5 = some 77 ∧ s.recovered 5 = none := ⟨_, rfl, rfl, rfl, rfl⟩
 
 end GoNfsd.Props.C08
